@@ -111,7 +111,7 @@ def run(ctx, replay):
             il = impl[pos:pos + len(ops)]
             pos += len(ops)
             if len(il) < len(ops):
-                ctx.violation("implementation stopped while recording with initial capacity %d: rc=%s %s" % (cap, rc, err[-1500:]),
+                ctx.violation("implementation stopped while recording with initial capacity %d: rc=%s %s" % (cap, rc, vcheck.san_summary(err)),
                               {"kind": "crash", "capacity": cap, "ops": ops, "stderr": err[-3000:]})
                 nbad += 1
                 break
